@@ -1,7 +1,8 @@
 (* C04 — co-occurrence results do not depend on threads, buffer sizes or data volume.
    Only statements, each closed by `exact <lemma>`, followed by Print Assumptions. *)
 From Coq Require Import ZArith List Bool Lia Sorting.Sorted Permutation.
-From VZ Require Import Model.K01_CooAcc Proofs.K01_CooAcc_list Proofs.K01_CooAcc_arrays Proofs.K01_CooAcc_proofs.
+From VZ Require Import Model.K01_CooAcc Proofs.K01_CooAcc_list Proofs.K01_CooAcc_arrays Proofs.K01_CooAcc_proofs
+  Proofs.K01_CooAcc_volume.
 Import ListNotations.
 Open Scope Z_scope.
 
@@ -131,6 +132,117 @@ Theorem C04_sizes_threads_irrelevant :
 Proof. exact end_to_end. Qed.
 Print Assumptions C04_sizes_threads_irrelevant.
 
+(* ------------------------------------------------------------------ data volume (Proofs/K01_CooAcc_volume.v) *)
+(* C04_acc_total with the raw event count replaced by the event VOLUME per sort window.
+   What bounds the level stack is not the number of events but F, the number of flushes that are not followed by
+   merge_all_sum_duplicates (merge_all compacts the stack to ONE occupied level; flushes followed by it keep the level
+   counter <= 4 and depth <= 3 for ever):  level counter <= 4 * (F + 1),  limit * F <= 2 * #events  (such a flush
+   either closes a window of >= limit appended entries or shrinks `ind` by >= limit), and F > 0 needs
+   capacity > limit, i.e. for a buffer allocated at most `limit` long, a `min` already enlarged by coo_increase_mem.
+   Hypothesis: |min| >= 4 and   8 * #events + 6 * limit < limit * 2^(M - 1),  where
+     M = |min|                         if the buffer starts longer than limit,
+     M = round(1.5 * (|min| + 2))      if it starts at most limit long (the length coo_increase_mem gives `min`).
+   At the drivers' allocation (capacity 32, |min| = 10, limit 65536): M = 18, every run of up to 1.07e9 events per
+   buffer (C04_volume_driver_example); the old hypothesis covered 254.  The conclusion is unchanged.
+   The bound cannot be removed: see C04_volume_bound_needed_refuted below. *)
+Theorem C04_acc_total_volume : forall limit cap mlen (evs : list entry),
+  1 <= limit -> 20 <= cap -> 4 <= mlen -> Forall (fun e => 0 <= e_key e) evs ->
+  8 * zlen evs + 6 * limit < limit * 2 ^ ((if cap <=? limit then grow_min_size mlen else mlen) - 1) ->
+  exists s, run limit cap mlen evs = Ok s /\
+            (forall k, denote s k = sumby evs k) /\
+            StronglySorted Z.lt (map e_key (live s)).
+Proof.
+  intros limit cap mlen evs H1 H2 H3 H4 H5.
+  destruct (run_total_volume (fun _ => True) limit cap mlen evs H1 H2) as (s & E & D & S & _).
+  - eapply Forall_impl; [|exact H4]. simpl. intros e He. split; [exact He|exact I].
+  - split; [exact H3|exact H5].
+  - exists s. split; [exact E|]. split; [exact D|exact S].
+Qed.
+Print Assumptions C04_acc_total_volume.
+
+Theorem C04_acc_cells_volume : forall limit cap mlen mul (evs : list entry),
+  1 <= limit -> 20 <= cap -> 4 <= mlen ->
+  8 * zlen evs + 6 * limit < limit * 2 ^ ((if cap <=? limit then grow_min_size mlen else mlen) - 1) ->
+  Forall (fun e => 0 <= e_key e /\ 0 <= e_col e < mul /\ e_key e = e_col e + mul * e_row e) evs ->
+  exists s, run limit cap mlen evs = Ok s /\
+            (forall r c, 0 <= c < mul -> cell (live s) r c = cell evs r c) /\
+            StronglySorted Z.lt (map e_key (live s)).
+Proof.
+  intros limit cap mlen mul evs H1 H2 H3 H4 H5. apply (run_cells_volume limit cap mlen mul evs H1 H2).
+  - split; [exact H3|exact H4].
+  - eapply Forall_impl; [|exact H5]. intros [[[r c] v] k]. simpl. tauto.
+Qed.
+Print Assumptions C04_acc_cells_volume.
+
+Theorem C04_acc_indep_volume : forall l1 l2 cap1 cap2 m1 m2 (evs : list entry) s1 s2,
+  1 <= l1 -> 1 <= l2 -> 20 <= cap1 -> 20 <= cap2 -> 4 <= m1 -> 4 <= m2 -> Forall (fun e => 0 <= e_key e) evs ->
+  8 * zlen evs + 6 * l1 < l1 * 2 ^ ((if cap1 <=? l1 then grow_min_size m1 else m1) - 1) ->
+  8 * zlen evs + 6 * l2 < l2 * 2 ^ ((if cap2 <=? l2 then grow_min_size m2 else m2) - 1) ->
+  run l1 cap1 m1 evs = Ok s1 -> run l2 cap2 m2 evs = Ok s2 ->
+  forall k, denote s1 k = denote s2 k.
+Proof.
+  intros l1 l2 cap1 cap2 m1 m2 evs s1 s2 H1 H2 H3 H4 M1 M2 H5 H6 H7 R1 R2 k.
+  destruct (C04_acc_total_volume l1 cap1 m1 evs H1 H3 M1 H5 H6) as (t1 & E1 & D1 & _).
+  destruct (C04_acc_total_volume l2 cap2 m2 evs H2 H4 M2 H5 H7) as (t2 & E2 & D2 & _).
+  rewrite R1 in E1. rewrite R2 in E2. inversion E1; inversion E2; subst. rewrite D1, D2. reflexivity.
+Qed.
+Print Assumptions C04_acc_indep_volume.
+
+(* NO bound on the number of events: a buffer at most `limit` long (every flush is followed by merge_all) fed with
+   events whose keys all lie in a list K shorter than 0.95 * capacity (so coo_append's growth test never fires: after
+   merge_all the live keys are distinct).  Depth stays <= 3, the level counter <= 4.  At the drivers' allocation
+   (capacity 32, limit 65536): any number of events over at most 30 distinct cells. *)
+Theorem C04_acc_total_few_keys : forall limit cap mlen (K : list Z) (evs : list entry),
+  1 <= limit -> 20 <= cap <= limit -> 4 <= mlen -> 20 * zlen K < 19 * cap ->
+  Forall (fun e => 0 <= e_key e /\ In (e_key e) K) evs ->
+  exists s, run limit cap mlen evs = Ok s /\
+            (forall k, denote s k = sumby evs k) /\
+            StronglySorted Z.lt (map e_key (live s)).
+Proof.
+  intros limit cap mlen K evs H1 H2 H3 H4 H5.
+  destruct (run_total_compact (fun t => In (snd t) K) K (fun t H => H) limit cap mlen evs H1 H2 H3) as (s & E & D & S & _).
+  - eapply Forall_impl; [|exact H5]. intros [[[r c] v] k]. simpl. tauto.
+  - exact H4.
+  - exists s. split; [exact E|]. split; [exact D|exact S].
+Qed.
+Print Assumptions C04_acc_total_few_keys.
+
+(* end to end under the volume budget (one accumulator per chunk, any capacities >= 20 and min-stack lengths) *)
+Theorem C04_sizes_threads_irrelevant_volume :
+  forall (doc : Type) (events_of_doc : doc -> list entry) docs sizes n_threads limit (capf mlenf : Z * Z -> Z) k,
+  length sizes = length docs -> 1 <= limit -> (forall ch, 20 <= capf ch) ->
+  Forall (fun e => 0 <= e_key e) (events_of doc events_of_doc docs) ->
+  (forall ch, 4 <= mlenf ch /\
+     8 * zlen (events_of doc events_of_doc docs) + 6 * limit
+     < limit * 2 ^ ((if capf ch <=? limit then grow_min_size (mlenf ch) else mlenf ch) - 1)) ->
+  fold_right Z.add 0
+    (map (fun ch => acc_matrix limit (capf ch) (mlenf ch) (events_of doc events_of_doc (chunk_docs docs ch)) k)
+         (chunk_boundaries sizes n_threads))
+  = sumby (events_of doc events_of_doc docs) k.
+Proof. exact end_to_end_volume. Qed.
+Print Assumptions C04_sizes_threads_irrelevant_volume.
+
+(* some bound on the volume IS needed when limit < capacity: a stream of equal keys is flushed every `limit` events,
+   never reaches the merge_all test (ind stays tiny), and the level counter overflows `min`.  Here with the drivers'
+   buffer shape (capacity 32, |min| = 2 * ceil(log2 32) = 10) at limit = 1: 1022 equal events (1021 still run; the
+   hypothesis of C04_acc_total_volume allows 63 there, that of C04_acc_total 254). *)
+Theorem C04_volume_bound_needed_refuted :
+  exists evs, init_default 32 = init 32 10 /\ run 1 32 10 evs = OOB S_ms_min_i1.
+Proof. exists (repeat (0, 0, 1, 0) (Z.to_nat 1022)). vm_compute. split; reflexivity. Qed.
+Print Assumptions C04_volume_bound_needed_refuted.
+
+(* per-operation content of the strengthening: merge_all leaves the level counter at 2^(number of occupied levels) *)
+Theorem C04_merge_all_compacts : forall Q c,
+  stack_ok Q c -> ind c <= cap c -> cnt (mn c) (depth c) + 1 < 2 ^ (zlen (mn c) - 1) ->
+  Z.abs (nthZ (mn c) 0) = ind c ->
+  exists c', merge_all_sum_duplicates c = Ok c' /\ stack_ok Q c' /\
+             cnt (mn c') (depth c') <= 2 ^ npos (mn c) (depth c) /\ 2 ^ npos (mn c) (depth c) <= cnt (mn c) (depth c) + 1.
+Proof.
+  intros Q c H1 H2 H3 H4. destruct (ma_ok_strong Q c H1 H2 H3 H4) as (c' & E & (S & _) & _ & Hc).
+  exists c'. split; [exact E|]. split; [exact S|]. split; [exact Hc|apply pow2_npos_le_cnt].
+Qed.
+Print Assumptions C04_merge_all_compacts.
+
 (* the hypotheses are needed: below capacity 20 the model (like the code) overruns its buffer, and a min stack that
    is too short for the number of flushes is overrun as well *)
 Theorem C04_small_capacity_refuted : exists evs, run 65536 19 10 evs = OOB S_append_write.
@@ -187,3 +299,35 @@ Proof. vm_compute. reflexivity. Qed.
 Example C04_window_example :
   compress (sort_by_key [(1,2,1,9); (0,1,1,1); (1,2,2,9); (0,0,1,0); (0,1,3,1)]) = [(0,0,1,0); (0,1,4,1); (1,2,3,9)].
 Proof. vm_compute. reflexivity. Qed.
+
+(* non-vacuity of C04_acc_total_volume at the drivers' real allocation (coo_initial_memory default: capacity 32,
+   |min| = 2 * ceil(log2 32) = 10, COO_QUICKSORT_LIMIT = 65536): the hypotheses hold for every event count up to 1e9 *)
+Example C04_volume_driver_example : forall nev, 0 <= nev <= 1000000000 ->
+  init_default 32 = init 32 10 /\ 1 <= 65536 /\ 20 <= 32 /\ 4 <= 10 /\
+  8 * nev + 6 * 65536 < 65536 * 2 ^ ((if 32 <=? 65536 then grow_min_size 10 else 10) - 1).
+Proof.
+  intros nev H. split; [vm_compute; reflexivity|].
+  replace (2 ^ ((if 32 <=? 65536 then grow_min_size 10 else 10) - 1)) with 131072 by (vm_compute; reflexivity). lia.
+Qed.
+
+(* ... and at a small threshold, beyond the reach of C04_acc_total: limit 16 < capacity 32, |min| = 10, 600 events over
+   4 cells (2 * 600 + 2 > 2^9; 37 un-merged flushes, depth 5); the run is evaluated as well *)
+Example C04_volume_small_limit_example :
+  let evs := map (fun i => let c := Z.of_nat i mod 2 in let r := Z.of_nat i mod 3 mod 2 in (r, c, 1, c + 4 * r)) (seq 0 (Z.to_nat 600)) in
+  zlen evs = 600 /\ ~ (2 * zlen evs + 2 < 2 ^ (10 - 1)) /\ 4 <= 10 /\
+  8 * zlen evs + 6 * 16 < 16 * 2 ^ ((if 32 <=? 16 then grow_min_size 10 else 10) - 1) /\
+  forallb (fun e => 0 <=? e_key e) evs = true /\
+  option_map (fun s => (map e_key (live s), fold_right Z.add 0 (map e_val (live s)), depth s))
+             (run_state 16 32 10 evs)
+  = Some ([0; 1; 4; 5], 600, 5).
+Proof. vm_compute. repeat split; try reflexivity; intros H; discriminate H. Qed.
+
+(* non-vacuity of C04_acc_total_few_keys: capacity 32 <= limit 65536, 2000 events over 30 distinct keys *)
+Example C04_few_keys_example :
+  let K := map Z.of_nat (seq 0 30) in
+  let evs := map (fun i => let k := Z.of_nat i mod 30 in (0, k, 1, k)) (seq 0 (Z.to_nat 2000)) in
+  20 * zlen K < 19 * 32 /\ forallb (fun e => (0 <=? e_key e) && existsb (Z.eqb (e_key e)) K) evs = true /\
+  option_map (fun s => (zlen (live s), fold_right Z.add 0 (map e_val (live s)), depth s, cap s))
+             (run_state 65536 32 10 evs)
+  = Some (30, 2000, 3, 32).
+Proof. vm_compute. repeat split; reflexivity. Qed.
